@@ -655,7 +655,28 @@ func checkMerge(run *core.Run, files []core.File, exp mergeExpect, r *rand.Rand,
 				viol("C07", "conflict-not-reported:"+cf.Kind, "an error for "+describeConflicts([]conflict{cf}), fmtMergeErrs(errs))
 				continue
 			}
-			if cf.Kind == "syntax" || cf.Kind == "nonmodule" {
+			if cf.Kind == "syntax" {
+				// syntax errors surfacing through the merge carry no file: their positions are checked against the
+				// file the generator injected the syntax error into (when exactly one file is broken that way)
+				nSyntax := 0
+				for _, x := range exp.Conflicts {
+					if x.Kind == "syntax" {
+						nSyntax++
+					}
+				}
+				if nSyntax == 1 {
+					for _, e := range errs {
+						if e.Syntax {
+							run.Count("merge_syntax_error_positions_bounds_checked", 1)
+							if why := boundsViolation(byName[cf.Name], e.Msg); why != "" {
+								viol("C16", "merge-syntax-error-position-out-of-bounds", "inside "+cf.Name, why)
+							}
+						}
+					}
+				}
+				continue
+			}
+			if cf.Kind == "nonmodule" {
 				continue
 			}
 			lines, fileOK := cf.Sites[hit.File]
